@@ -450,7 +450,40 @@ fn run_payout_case(case: &PayoutCase) -> (Vec<(String, String)>, usize, usize, u
         .flat_map(|b| b.transactions.iter())
         .filter(|t| t.path.len() >= 2 && t.total_fees > 0)
         .count();
-    let (v, checked, router_paid) = check_payouts(&path);
+    let (mut v, checked, router_paid) = check_payouts(&path);
+    // a lying producer: the next block on the tip (with a golden ticket, so that it pays out) is
+    // offered with its fee transaction extended / shortened / redirected / inflated; every variant
+    // must be refused (a refused block leaves no trace, so the variants are offered one after another)
+    if v.is_empty() && !d.dead && !path.is_empty() {
+        let (tip_id, tip_hash) = d.node.tip();
+        let tipb = path.last().unwrap();
+        let creator = key(1);
+        let ts = tipb.timestamp + 2 * case.hist.ncfg.heartbeat + 5;
+        if let Some(gt) = block_on(d.node.mine_gt(tip_hash, &key(2), 31_337)) {
+            if let Ok(honest) = block_on(d.node.make_block_as(&creator, tip_hash, ts, vec![carrier_tx(&creator, ts)], Some(gt))) {
+                if honest.has_fee_transaction {
+                    for e in crate::adversary::PAYOUT_EDITS {
+                        let mut lie = honest.clone();
+                        if !crate::adversary::apply_block_edit(&mut lie, e, &creator, tipb.difficulty) {
+                            continue;
+                        }
+                        let (out, _) = guarded_add(&mut d.node, lie, 256);
+                        match out {
+                            StepOutcome::Result("added_lc") | StepOutcome::Result("added_side") => {
+                                v.push((format!("C08|payout_lie_accepted|edit={:?}", e), format!("a block on tip {} whose fee transaction was edited ({:?}) after consensus computed it was accepted", tip_id, e)));
+                                break;
+                            }
+                            StepOutcome::Panicked(site, msg) => {
+                                v.push((format!("C08|payout_lie_aborts_node|edit={:?}|site={}", e, site), format!("a block whose fee transaction was edited ({:?}) made add_block panic at {}: {}", e, site, msg)));
+                                break;
+                            }
+                            _ => {}
+                        }
+                    }
+                }
+            }
+        }
+    }
     (v, checked, router_paid, multi)
 }
 
